@@ -1309,6 +1309,9 @@ class Walker:
                     self.assign(e, v, env, stmt)
         elif isinstance(t, (ast.Attribute, ast.Subscript)):
             tgt = self.ev(t, env)
+            if isinstance(t, ast.Attribute) and val == tgt and not isinstance(stmt, ast.AugAssign):
+                # `saved = self.f ... self.f = saved` with nothing written to f in between: the field keeps its value
+                return
             self.emit("store", stmt, target=tgt, value=val)
             _GRAPH_CTX[0] = self.stored_graph(tgt)
             try:
@@ -2305,10 +2308,23 @@ class Walker:
             if fn in (("mod", "numpy.asarray"), ("mod", "numpy.asanyarray"), ("mod", "numpy.float64")) and (
                     not kwargs or kwargs == (("dtype", ("mod", "numpy.float64")),) or kwargs == (("dtype", ("builtin", "float")),)):
                 return args[0]
-        # int(n) of something that is an integer already (a node count, a length, best_k / k bounds kept on the graph)
+        # np.fromiter(<generator>, dtype=np.float64[, count=...]) holds the generated values (as float64: costs, distances
+        # and densities are floats already; a narrower dtype is not the same table)
+        if fn == ("mod", "numpy.fromiter") and len(args) == 1 and args[0][0] == "listcomp" \
+                and dict(kwargs).get("dtype") in (("mod", "numpy.float64"), ("builtin", "float"), ("mod", "numpy.double")) \
+                and set(dict(kwargs)) <= {"dtype", "count"}:
+            return args[0]
+        # int(n) of something that is an integer already (a node count, a length, an extent, best_k / k bounds kept on the graph)
         if fn == ("builtin", "int") and len(args) == 1 and not kwargs and (
                 (args[0][0] == "attr" and args[0][2] in ("n_nodes", "n_features", "best_k", "n_clusters", "size", "last"))
-                or (args[0][0] == "call" and args[0][1] == ("builtin", "len"))):
+                or (args[0][0] == "call" and args[0][1] == ("builtin", "len"))
+                or (args[0][0] == "idx" and args[0][1][0] == "attr" and args[0][1][2] == "shape" and args[0][2][0] == "const")):
+            return args[0]
+        # float(d) of a value a metric returned (a float already)
+        if fn == ("builtin", "float") and len(args) == 1 and not kwargs and args[0][0] == "call" and (
+                (args[0][1][0] == "attr" and args[0][1][2] == "distance_fn")
+                or (args[0][1][0] == "param" and args[0][1][1] in ("distance_function", "distance_fn"))
+                or (args[0][1][0] == "idx" and args[0][1][1] == ("mod", "opfython.math.distance.DISTANCES"))):
             return args[0]
         # operator.index(x) is x for every integer x (and an error otherwise)
         if fn in (("mod", "operator.index"), ("mod", "_operator.index")) and len(args) == 1 and not kwargs:
